@@ -2,7 +2,7 @@
 import io
 
 from harness import common, reader, sysimg, syslevel, sysprops, sysrun
-from harness.props import packleaf
+from harness.props import packleaf, inplaceleaf
 
 MODULE = 'C17'
 LBS = 2048
@@ -222,6 +222,7 @@ def modify_oracle(b, report, rng):
 def run(ctx):
     common.proof_stage(ctx, MODULE, common.theorems_of(MODULE))
     common.setup_impl_path()
+    inplaceleaf.correspondence(ctx)
     packleaf.leaf_correspondence(ctx)
     quick = ctx.tier == 'quick'
     rng = ctx.rng
